@@ -6,6 +6,7 @@ import numpy as np
 from hypothesis import strategies as st
 
 from vf import retro
+from vf import randomctl
 from vf import strategies as S
 from vf.engine import Violation, require
 
@@ -18,6 +19,7 @@ RULE = (
     "MergeTopBottom, FixedSize, OptimalSize, NPlatePerCellLine, BatchieEnsemble) with drawn parameters and generator seed (3 operators per case), and both "
     "hold-out functions with fraction from {0,1,.1,.15,.5} U [0,1]. Operators that raise are counted, not flagged. Non-trivial = input has a duplicate "
     "condition and both observed and unobserved plates. distinct = distinct case JSON."
+    ' In half the cases the generator handed over is a PCG64 whose stream repeats words at drawn positions (vf.randomctl.StutterGenerator).'
 )
 ASSUMPTIONS = [
     "ceil(size*fraction) is evaluated in float arithmetic as documented (20*0.15 -> 4)",
@@ -50,6 +52,7 @@ def _case(draw):
         "screen": sc,
         "ops": ops,
         "seed": draw(st.integers(0, 2**32 - 1)),
+        "stutter": draw(randomctl.stutter_patterns()),  # a generator whose consecutive draws sometimes coincide
         "clash_names": draw(st.integers(0, 3)) == 0,
         "fraction": draw(st.one_of(st.sampled_from([0.0, 1.0, 0.1, 0.15, 0.5]), st.floats(min_value=0, max_value=1))),
     }
@@ -96,7 +99,7 @@ def check_case(case):
         observed_in = retro.multiset(screen, obs_rows, with_plate=True, with_mask=True)
         name = op["name"]
         try:
-            out = retro.apply_operator(op, screen, np.random.default_rng(case["seed"]))
+            out = retro.apply_operator(op, screen, randomctl.make_rng(case["seed"], case.get("stutter")))
         except Exception as e:  # outside the quantifier ("for which it returns")
             labels.append("raised:%s:%s" % (name, type(e).__name__))
             require(retro.unchanged(screen, snap), name + ".input_untouched_on_error", "input screen was modified by an operator that then raised")
@@ -123,7 +126,7 @@ def check_case(case):
             obs_rows2 = [i for i in range(screen.size) if bool(screen.observation_mask[i])]
             observed_in2 = retro.multiset(screen, obs_rows2, with_plate=True, with_mask=True)
             try:
-                out2 = retro.apply_operator(op, screen, np.random.default_rng(case["seed"] + 1))
+                out2 = retro.apply_operator(op, screen, randomctl.make_rng(case["seed"] + 1, case.get("stutter")))
             except Exception as e:
                 labels.append("raised:%s:%s" % (name, type(e).__name__))
                 continue
@@ -151,7 +154,7 @@ def check_case(case):
             screen.get_plate(a_).merge(screen.get_plate(b_))
         snap = retro.snapshot(screen)
         frac = case["fraction"]
-        train, hold = f(screen, frac, np.random.default_rng(case["seed"]))
+        train, hold = f(screen, frac, randomctl.make_rng(case["seed"], case.get("stutter")))
         require(retro.unchanged(screen, snap), hname + ".input_untouched", "hold-out split modified its input")
         whole = retro.multiset(screen, with_plate=True)
         parts = retro.multiset(train, with_plate=True) + retro.multiset(hold, with_plate=True)
